@@ -116,6 +116,9 @@ pub enum RlMode {
     Exact,
     /// `remaining_len` returns `Err`.
     Err,
+    /// `remaining_len` reports 7 bytes more than can be delivered (a stream with padding, a
+    /// length taken from an outer frame): pre-checks pass, the reads then decide.
+    Over,
 }
 
 /// How the bytes are delivered when reading goes through `IoReader<SimRead>`.
@@ -292,6 +295,7 @@ impl<'a> Input for SimInput<'a> {
         match self.mode.rl {
             RlMode::None => Ok(None),
             RlMode::Exact => Ok(Some(d)),
+            RlMode::Over => Ok(Some(d + 7)),
             RlMode::Err => {
                 self.rl_err_returned = true;
                 Err("sim: remaining_len unavailable".into())
